@@ -103,6 +103,12 @@ def ev(t, env, snap):
     raise Unsupported(k)
 
 
+def _cond_true(c, env):
+    if c[0] != "and":
+        raise Unsupported(c)
+    return all((cble(_scalar(a, env), _scalar(b, env)) == (k == "cble")) for k, a, b in c[1])
+
+
 def ev_item(it, env, snap):
     if it[0] == "Elem":
         return ev(it[1], env, snap)
@@ -117,11 +123,19 @@ def ev_item(it, env, snap):
         else:
             raise Unsupported(src)
         s = set()
+        stop = False
         for x in seq:
             e2 = dict(env)
             e2[it[1]] = x
             for sub in it[3]:
+                if sub[0] in ("Break", "SkipRest"):
+                    if _cond_true(sub[1], e2):
+                        stop = sub[0] == "Break"
+                        break
+                    continue
                 s |= ev_item(sub, e2, snap)
+            if stop:
+                break
         return s
     if it[0] == "If":
         c = it[1]
@@ -139,7 +153,7 @@ def ev_item(it, env, snap):
                 s |= ev_item(sub, env, snap)
             return s
         if c[0] == "and":
-            ok = all(cble(_scalar(a, env), _scalar(b, env)) for _, a, b in c[1])
+            ok = _cond_true(c, env)
             s = set()
             if ok:
                 for sub in it[2]:
